@@ -3,7 +3,7 @@
 records the outcome in each meta.json.   usage: mutall2.py [dir ...]   (default: seeded/C??, seeded/round{2,3,4}/C??, seeded/extra/*)"""
 import sys, os, subprocess, json, re, glob, concurrent.futures
 V = "/verif"
-dirs = sys.argv[1:] or sorted(glob.glob(V + "/seeded/C??")) + sorted(glob.glob(V + "/seeded/round2/C??")) + sorted(glob.glob(V + "/seeded/round3/C??")) + sorted(glob.glob(V + "/seeded/round4/C??")) + sorted(glob.glob(V + "/seeded/round5/C??")) + sorted(glob.glob(V + "/seeded/round6/C??")) + sorted(glob.glob(V + "/seeded/round7/C??")) + sorted(glob.glob(V + "/seeded/round8/C??")) + sorted(glob.glob(V + "/seeded/extra/*"))
+dirs = sys.argv[1:] or sorted(glob.glob(V + "/seeded/C??")) + sorted(glob.glob(V + "/seeded/round2/C??")) + sorted(glob.glob(V + "/seeded/round3/C??")) + sorted(glob.glob(V + "/seeded/round4/C??")) + sorted(glob.glob(V + "/seeded/round5/C??")) + sorted(glob.glob(V + "/seeded/round6/C??")) + sorted(glob.glob(V + "/seeded/round7/C??")) + sorted(glob.glob(V + "/seeded/round8/C??")) + sorted(glob.glob(V + "/seeded/round9/C??")) + sorted(glob.glob(V + "/seeded/extra/*"))
 def one(d):
     m = json.load(open(d + "/meta.json")); pid = m["property"]
     p = subprocess.run([V + "/tools/mutiso", d + "/patch.diff", pid], capture_output=True, timeout=6000)
